@@ -37,7 +37,7 @@ func init() {
 		Rule: "a chart is a file set: baseline (Chart.yaml v2, values.yaml, one template) plus every conflict-free subset of <=2 (quick) / <=3 (thorough; a two-rule .helmignore counts as two there) deviations from a table of " +
 			fmt.Sprint(len(devTable)) + " (apiVersion v1 +requirements.yaml/.lock, all optional metadata, declared dependencies, Chart.lock, schema, 5 file-name shapes, 5 contents x {file,template,values} + 3 x Chart.yaml, " +
 			"4 dependency layouts, " + fmt.Sprint(ruleSetCount()) + " .helmignore rule sets with " + fmt.Sprint(len(probeNames)) + " probe files - in cases of three deviations only the probes designed for the set's own rules plus 4 innocents); each runs LoadFiles->Save->LoadFile, LoadFiles->SaveDir->LoadDir (not for a .helmignore set combined with other deviations), dir->LoadDir vs dir->Package->LoadFile, dir->LoadDir vs own-tar->LoadArchive; " +
-			"plus invalid name/version x <=1 deviation (one .helmignore set only) x {Save, Package, Package --version}; plus write-phase faults (invalid chart name 1 or 2 levels down the dependency tree, values.schema.json that is not JSON at depth 0..2) x <=1 deviation x {Save, Package}: error => no file in the destination. distinct = (resulting file set) / (invalid tuple) / (fault tuple); every case is non-trivial: it reaches the tar writer or a validation error",
+			"plus invalid name/version x <=1 deviation (one .helmignore set only) x {Save, Package, Package --version}; plus write-phase faults (invalid chart name - plainly invalid or collapsing to one after sanitizing - 1 or 2 levels down the dependency tree, values.schema.json that is not JSON at depth 0..2) x <=1 deviation x {Save, Package}: error => no file in the destination. distinct = (resulting file set) / (invalid tuple) / (fault tuple); every case is non-trivial: it reaches the tar writer or a validation error",
 		Run:    run,
 		Replay: replay,
 		Assumptions: []string{
